@@ -199,18 +199,25 @@ def make_mc_generator(cfg, groups, mc_fields_list, livetimes, valid_ranges=None,
     return g, shg_mgr, datas
 
 
+class DeviateBudgetExceeded(RuntimeError):
+    """the implementation consumed more uniform deviates than any terminating run plausibly needs"""
+
+
 class TwinRandom(object):
     """numpy RandomState wrapper that records every uniform deviate consumed through `random` /
     `random_sample` / `choice(p=…)` (the only draws the signal generators make with poisson=False).
     `choice` re-implements numpy's documented algorithm (cdf = cumsum(p); cdf /= cdf[-1];
     searchsorted(cdf, u, 'right')) on the recorded deviates and is cross-checked against a twin state."""
-    def __init__(self, seed):
+    def __init__(self, seed, budget=300000):
         self._rs = np.random.RandomState(seed)
         self._twin = np.random.RandomState(seed)
         self.us = []
         self.choice_calls = []
+        self.budget = budget
 
     def random(self, size=None):
+        if len(self.us) > self.budget:
+            raise DeviateBudgetExceeded('more than %d uniform deviates requested' % self.budget)
         u = self._rs.random_sample(size)
         self._twin.random_sample(size)
         self.us.extend(np.atleast_1d(u).tolist())
